@@ -6,7 +6,13 @@ Scenario IR
            an entry of "fs" with "kind": "B" is a uima.cas.ByteArray (its single byte is the label) and "arr": [sofa names] says
            which sofas hold it as their data (sofaArray; such a sofa has no sofaString).  It is an FS like the others: member
            of a view and / or the `ref` of a t.A; every operation may name its label.
+           "extra": [{name,key}...] (JSON only): views which the %VIEWS section declares although the document holds no Sofa
+           feature structure for them (key places the entry in the section and orders its members); the reader creates
+           their sofas itself.  An FS may have such a view as its "member".  The name _InitialView is allowed when the
+           document has no sofa of that name.
     ops:   new{l,preset?} add{l,keep (true|false|null = argument omitted),view} add_all{ls,view} link{p,c}
+           add / add_all with "alias": true go through the deprecated public aliases Cas.add_annotation(fs, keep_id) /
+           Cas.add_annotations(fss), which the API documents as the same operations
            view{name,xid?,num?}   xid / num = {mode,arg}: create_view(name, xmiID=.., sofaNum=..) with a value chosen by the
                                   caller that is not in use: mode above (beyond every value in use, gap arg % 3) | free (an
                                   unused value below the largest one; none -> above).  Either, both or none may be given.
@@ -21,6 +27,7 @@ the order parameter of OpSave / OpReload.
 """
 import base64
 import json
+import warnings
 import xml.etree.ElementTree as ET
 
 from harness.gallina import gbool, glist, gstr, gz
@@ -42,7 +49,10 @@ RULE = (
     "create_view with an xmi:id and / or a sofaNum chosen by the caller (about 4 in 10 create_view calls; a value not in use, "
     "ahead of the generator with a gap of 0-2 or an unused one below it; 1 scenario in 4 issues create_view more often), "
     "to_xmi, to_json, reload through either format, forcing an FS onto the id of another / an id below the maximum / above it; "
-    "1 document in 8 has no _InitialView sofa; 1 scenario in 40 may force an FS onto a sofa's id (open finding "
+    "1 document in 8 has no _InitialView sofa; 4 in 10 JSON documents declare one or two views in the %VIEWS section only (no "
+    "Sofa FS; the reader creates the sofa itself; some FS are members of such a view, some add / add_all go to it; a "
+    "document without an _InitialView sofa may declare that name); about 1 add / add_all in 4 is issued through the "
+    "deprecated public alias add_annotation(fs, keep_id) / add_annotations(fss); 1 scenario in 40 may force an FS onto a sofa's id (open finding "
     "fs_id_equals_sofa_id). A case is non-trivial when it loads a document, generates an id afterwards and serialises.")
 TRUSTED = [
     "Coq 8.16.1 kernel and vm_compute; theorems in Props/C09.v are closed under the global context",
@@ -54,6 +64,10 @@ TRUSTED = [
     "a byte array which is the data of a sofa is an ordinary FS of the model (label, id, member, no reference): the scenarios keep "
     "it reachable from the indexes, so the sofa's own reference adds nothing to the set Cas._find_all_fs returns; that the sofa, "
     "the indexes and the referring FS hold one and the same object is observed by the driver (object identity) and judged by the oracle",
+    "the deprecated aliases Cas.add_annotation / Cas.add_annotations are the model operations OpAdd / OpAddAll (the API documents "
+    "them as the same operations); that they are is carried by the correspondence and the oracle, not by a theorem",
+    "a JSON document which declares views without a Sofa FS is loaded as load_doc_views d names = load_doc d followed by the "
+    "reader's own create_view calls in the order of the %VIEWS section (Props/C09.v C09_views_without_sofa_start / _fresh)",
     "the model is one shared store: that all view handles (Cas._copy) share both generators, the sofas and the views is carried by "
     "the correspondence only (every operation is issued through a randomly chosen live handle), not by a theorem",
 ]
@@ -96,7 +110,21 @@ def _ts(cassis):
 
 def _members(start, s):
     """the FS of the document which are members of the view of sofa s, in the order the document lists them"""
-    return [f for f in _shuffled(start["fs"], start["perm"] + s["id"]) if f["member"] == s["name"]]
+    return [f for f in _shuffled(start["fs"], start["perm"] + s.get("id", s.get("key", 0))) if f["member"] == s["name"]]
+
+
+def _views_section(start):
+    """the entries of the %VIEWS section in the order they are written: the sofas of the document and, at places their
+    keys choose, the views declared without a sofa"""
+    out = _shuffled(start["sofas"], start["perm"] + 3)
+    for e in start.get("extra", []):
+        out.insert(e["key"] % (len(out) + 1), e)
+    return out
+
+
+def _extra_names(start):
+    """views declared in %VIEWS only, in the order of the section (the order in which the reader creates them)"""
+    return [e["name"] for e in _views_section(start) if "id" not in e] if start.get("extra") else []
 
 
 class Sim:
@@ -112,10 +140,13 @@ class Sim:
             for s in start["sofas"]:
                 if s["name"] != INIT:
                     self.views.append(s["name"])
+            for n in _extra_names(start):
+                if n not in self.views:
+                    self.views.append(n)
             for f in start["fs"]:
                 self.fs[f["l"]] = {"views": [f["member"]] if f["member"] else [], "ref": f["ref"],
                                    "kind": f.get("kind", "A"), "arr": list(f.get("arr", []))}
-            for s in start["sofas"]:
+            for s in start["sofas"] + start.get("extra", []):
                 for f in _members(start, s):
                     self._group(s["name"], f.get("kind", "A"))
             self.prune()
@@ -236,7 +267,8 @@ def doc_text(start):
     first = sofas[0]["name"]
 
     def fs_sofa(f):
-        return sid[f["member"]] if f["member"] else sid.get(INIT, sid[first])
+        # an FS of a view for which the document has no sofa refers to another sofa (add() re-points it)
+        return sid.get(f["member"]) or sid.get(INIT, sid[first])
 
     # the byte array which is the data of a sofa: such a sofa has no text
     arr = {n: f["id"] for f in fss for n in f.get("arr", [])}
@@ -300,9 +332,9 @@ def doc_text(start):
         if i < len(recs):
             out.append(recs[i])
     views = {}
-    for s in _shuffled(sofas, start["perm"] + 3):
+    for s in _views_section(start):
         mem = [f["id"] for f in _members(start, s)]
-        views[s["name"]] = {"%SOFA": s["id"], "%MEMBERS": mem}
+        views[s["name"]] = {"%SOFA": s["id"], "%MEMBERS": mem} if "id" in s else {"%MEMBERS": mem}
     if start.get("form") == "dict":
         body = {}
         for d in out:
@@ -422,6 +454,13 @@ def _doc_ids(start):
     return {f["id"] for f in start["fs"]} | {s["id"] for s in start["sofas"]}
 
 
+def _quiet(f, *a, **kw):
+    """a call of a deprecated public alias, without its DeprecationWarning"""
+    with warnings.catch_warnings():
+        warnings.simplefilter("ignore")
+        return f(*a, **kw)
+
+
 def run_impl(cassis, sc):
     """-> {"first": snapshot, "steps": [{"mop": model op (JSON), "snap", "sofas", "obs"}]}; one entry per *model* op."""
     from cassis import Cas, load_cas_from_json, load_cas_from_xmi
@@ -490,7 +529,15 @@ def run_impl(cassis, sc):
             if fs is not None and sim.add_ok(op["l"], op["view"]):
                 v = via(op).get_view(op["view"])
                 remember(v)
-                if op["keep"] is None:
+                if op.get("alias"):
+                    # the deprecated alias, arguments by position or by keyword
+                    if op["keep"] is None:
+                        _quiet(v.add_annotation, fs)
+                    elif op.get("h", 0) % 2:
+                        _quiet(v.add_annotation, fs, op["keep"])
+                    else:
+                        _quiet(v.add_annotation, fs, keep_id=op["keep"])
+                elif op["keep"] is None:
                     v.add(fs)
                 else:
                     v.add(fs, keep_id=op["keep"])
@@ -502,7 +549,10 @@ def run_impl(cassis, sc):
                 ls = [l for l in sim.addable(op["ls"], op["view"]) if l in objs]
                 v = via(op).get_view(op["view"])
                 remember(v)
-                v.add_all([objs[l] for l in ls])
+                if op.get("alias"):
+                    _quiet(v.add_annotations, [objs[l] for l in ls])
+                else:
+                    v.add_all([objs[l] for l in ls])
                 emit(["add_all", ls], None)
             else:
                 emit(["nop"], None)
@@ -626,6 +676,16 @@ def oracle(cassis, sc, obs):
     for l, i in obs["first"]["snap"]:
         if base_fs.get(l) != i:
             return f"after load: FS {l} has xmiID {i}, the document said {base_fs.get(l)}"
+    if [x[2] for x in obs["first"]["sofas"]] != sim.views:
+        return f"after load: the CAS has the sofas {[x[2] for x in obs['first']['sofas']]}, expected {sim.views}"
+    if start["kind"] == "doc":
+        # sofas the reader made up (_InitialView when the document has none, views declared without a sofa): their ids
+        # and sofaNums are generated after loading and differ from everything in the document, unreachable FS included
+        for i, num, name in obs["first"]["sofas"]:
+            if name not in base_sofa and i in base_all:
+                return f"after load: sofa {name}, for which the document has no Sofa FS, got id {i}, an id of the document"
+            if name not in base_sofa and num in base_nums:
+                return f"after load: sofa {name}, for which the document has no Sofa FS, got sofaNum {num}, used in the document"
     prev = obs["first"]
     for n, st in enumerate(obs["steps"]):
         mop = st["mop"]
@@ -660,7 +720,12 @@ def oracle(cassis, sc, obs):
                 p = pmap[l]
                 if mop[0] == "force" and l == mop[1]:
                     continue
-                if p == i:
+                if l in regen and p is not None and p == i and l not in pend0:
+                    # keep_id=False asks for a newly generated id; an id which a generator of this CAS handed out, the
+                    # document held or add() reserved is never generated again (an id set from outside that add() has
+                    # not seen yet may be)
+                    return f"{tag}: add(keep_id=False) left FS {l} under id {i}, which was in use before; no new id was generated"
+                if p == i and l not in regen:
                     continue
                 if p is not None and l not in regen:
                     return f"{tag}: xmiID of FS {l} changed from {p} to {i}"
@@ -671,7 +736,7 @@ def oracle(cassis, sc, obs):
                     return f"{tag}: generated id {i} for FS {l} is an id of the loaded document"
                 if i in psid:
                     return f"{tag}: generated id {i} for FS {l} is the id of a sofa"
-                others = {x for ll, x in pmap.items() if x is not None and ll not in pend0}
+                others = {x for ll, x in pmap.items() if x is not None and ll not in pend0 and ll != l}
                 if i in others:
                     return f"{tag}: generated id {i} for FS {l} was already in use"
             gen = [cmap[l] for l in cmap if l in pmap and cmap[l] != pmap[l] and not (mop[0] == "force" and l == mop[1])]
@@ -825,6 +890,8 @@ def render(sc, obs):
         fss = glist([f"mkDfs {gz(f['l'])} {gz(f['id'])} {gbool(bool(f['member']))} "
                      f"{'None' if f['ref'] is None or f['ref'] not in idl else '(Some ' + gz(f['ref']) + ')'}" for f in start["fs"]])
         st = f"(StartDoc (mkDoc {sof} {fss}))"
+        if start.get("extra"):
+            st = f"(StartDocViews (mkDoc {sof} {fss}) {glist([gstr(n) for n in _extra_names(start)])})"
     first = dict(obs["first"])
     ops = glist([_gop(e["mop"]) for e in obs["steps"]])
     sos = glist([_gso(e) for e in obs["steps"]], sep=";\n  ")
@@ -1015,6 +1082,46 @@ def _with_arrays(sc):
     return sc
 
 
+def _with_views(sc):
+    """Some JSON documents declare one or two views in the %VIEWS section for which they hold no Sofa feature structure
+    (the reader creates those sofas itself, with generated ids and sofaNums); some FS of the document become members of
+    such a view and some add / add_all operations of the history go to it.  A document without an _InitialView sofa
+    may declare that name (its members go to the view every CAS has).  Drawn from a stream of its own."""
+    import random
+    start = sc["start"]
+    if start["kind"] != "doc" or start["fmt"] != "json":
+        return sc
+    r = random.Random(start["perm"] ^ 0x71E5)
+    if r.random() >= 0.4:
+        return sc
+    names = [s["name"] for s in start["sofas"]]
+    free = [n for n in ("v1", "v2", "v3", "w", "x") if n not in names]
+    extra = [{"name": n, "key": r.randint(0, 99)} for n in r.sample(free, r.choice([1, 1, 2]))]
+    if INIT not in names and r.random() < 0.5:
+        extra.insert(r.randint(0, len(extra)), {"name": INIT, "key": r.randint(0, 99)})
+    start["extra"] = extra
+    plain = [f for f in start["fs"] if f.get("kind") != "B"]
+    for f in plain:
+        if r.random() < 0.3:
+            f["member"] = r.choice(extra)["name"]
+    for op in sc["ops"]:
+        if op["op"] in ("add", "add_all") and r.random() < 0.25:
+            op["view"] = r.choice(extra)["name"]
+    assert _start_ok(start), start
+    return sc
+
+
+def _with_aliases(sc):
+    """About one add / add_all in four is issued through the deprecated public alias (add_annotation / add_annotations);
+    a stream of its own, seeded by the history."""
+    import random
+    r = random.Random(json.dumps(sc["ops"], sort_keys=True))
+    for op in sc["ops"]:
+        if op["op"] in ("add", "add_all") and r.random() < 0.25:
+            op["alias"] = True
+    return sc
+
+
 def _directed():
     """Fixed scenarios: the repaired defects and the boundary shapes named in the property."""
     out = []
@@ -1074,6 +1181,42 @@ def _directed():
                                     {"op": "force", "l": 12, "mode": "as", "arg": 7}, {"op": "save", "fmt": "json"},
                                     {"op": "add", "l": 12, "keep": False, "view": "v1"}, {"op": "reload", "fmt": "json"},
                                     {"op": "save", "fmt": "xmi"}]})
+    # JSON documents with views declared in %VIEWS only: their sofas get generated ids / sofaNums beyond the document, and
+    # what is generated afterwards lies beyond those; with and without an _InitialView sofa, the largest id on a sofa or
+    # on an FS that is not reachable
+    for form in ("list", "dict"):
+        st = {"kind": "doc", "fmt": "json", "form": form, "perm": 4, "sofas": [{"id": 1, "num": 1, "name": INIT}],
+              "fs": [{"l": 1, "id": 2, "member": INIT, "ref": None}, {"l": 2, "id": 3, "member": "v1", "ref": None}],
+              "extra": [{"name": "v1", "key": 1}]}
+        out.append({"start": st,
+                    "ops": [{"op": "save", "fmt": "json"}, {"op": "new", "l": 11}, {"op": "add", "l": 11, "keep": None, "view": "v1"},
+                            {"op": "view", "name": "w"}, {"op": "save", "fmt": "xmi"}, {"op": "reload", "fmt": "json"},
+                            {"op": "new", "l": 12}, {"op": "add", "l": 12, "keep": None, "view": "w"}, {"op": "view", "name": "x"},
+                            {"op": "save", "fmt": "json"}]})
+        st = {"kind": "doc", "fmt": "json", "form": form, "perm": 6,
+              "sofas": [{"id": 7, "num": 3, "name": "v2"}, {"id": 2, "num": 5, "name": "v1"}],
+              "fs": [{"l": 1, "id": 4, "member": "x", "ref": 2}, {"l": 2, "id": 1, "member": None, "ref": None},
+                     {"l": 3, "id": 3, "member": INIT, "ref": None}, {"l": 4, "id": 9, "member": None, "ref": None}],
+              "extra": [{"name": "x", "key": 0}, {"name": INIT, "key": 1}, {"name": "w", "key": 5}]}
+        out.append({"start": st,
+                    "ops": [{"op": "view", "name": "x"}, {"op": "view", "name": "y"}, {"op": "new", "l": 11},
+                            {"op": "add", "l": 11, "keep": None, "view": "w", "alias": True}, {"op": "save", "fmt": "json"},
+                            {"op": "add", "l": 1, "keep": False, "view": "x", "alias": True}, {"op": "reload", "fmt": "xmi"},
+                            {"op": "view", "name": "v3"}, {"op": "save", "fmt": "json"}]})
+    # the deprecated aliases add_annotation / add_annotations are add / add_all: keep_id=False through the alias gives a new
+    # id to an FS whose id (preset, or kept from the document) is in use in the CAS
+    for st in ({"kind": "empty"},
+               {"kind": "doc", "fmt": "xmi", "form": "list", "perm": 2, "sofas": [{"id": 4, "num": 1, "name": INIT}],
+                "fs": [{"l": 1, "id": 1, "member": INIT, "ref": None}, {"l": 2, "id": 2, "member": INIT, "ref": None}]}):
+        out.append({"start": st,
+                    "ops": [{"op": "new", "l": 11}, {"op": "add", "l": 11, "keep": None, "view": INIT, "alias": True},
+                            {"op": "new", "l": 12, "preset": {"mode": "as", "arg": 11}},
+                            {"op": "add", "l": 12, "keep": False, "view": INIT, "alias": True, "h": 1}, {"op": "save", "fmt": "xmi"},
+                            {"op": "new", "l": 13, "preset": {"mode": "sofa", "arg": 0}},
+                            {"op": "add", "l": 13, "keep": False, "view": INIT, "alias": True}, {"op": "save", "fmt": "json"},
+                            {"op": "new", "l": 14}, {"op": "add_all", "ls": [14, 11], "view": INIT, "alias": True},
+                            {"op": "add", "l": 11, "keep": False, "view": INIT, "alias": True}, {"op": "reload", "fmt": "xmi"},
+                            {"op": "add", "l": 12, "keep": True, "view": INIT, "alias": True, "h": 1}, {"op": "save", "fmt": "xmi"}]})
     # repaired: documents without an _InitialView sofa, FS id 1 / sofaNum 1 in the document (941f890)
     for fmt in ("xmi", "json"):
         out.append({"start": {"kind": "doc", "fmt": fmt, "form": "list", "perm": 2, "sofas": [{"id": 5, "num": 1, "name": "v1"}],
@@ -1097,7 +1240,7 @@ def generate(rng, tier):
         yield from _directed()
     n = {"quick": 1100, "thorough": 12000, "search": 6000}[tier]
     for _ in range(n):
-        yield _with_arrays(gen_scenario(rng, tier))
+        yield _with_aliases(_with_views(_with_arrays(gen_scenario(rng, tier))))
 
 
 # ------------------------------------------------------------------------------------------------ misc interface
@@ -1138,6 +1281,22 @@ def shrink_candidates(sc):
                         f["arr"].remove(gone)
                 if _start_ok(c["start"]):
                     yield c
+        for i, e in enumerate(st.get("extra", [])):
+            # a view declared without a sofa goes, its members become FS that are only parsed (or referenced)
+            c = json.loads(json.dumps(sc))
+            del c["start"]["extra"][i]
+            if not c["start"]["extra"]:
+                del c["start"]["extra"]
+            for f in c["start"]["fs"]:
+                if f["member"] == e["name"]:
+                    f["member"] = None
+            if _start_ok(c["start"]):
+                yield c
+    for i, o in enumerate(ops):
+        if o.get("alias"):
+            c = json.loads(json.dumps(sc))
+            del c["ops"][i]["alias"]
+            yield c
 
 
 def mutate(sc, rng):
@@ -1176,6 +1335,8 @@ def distribution(scenarios, observations):
             "json_object_form_with_sofa_data_array": sum(1 for s in docs if s["start"].get("form") == "dict"
                                                          and any(f.get("arr") for f in s["start"]["fs"])),
             "data_array_shared_by_two_sofas": sum(1 for s in docs if any(len(f.get("arr", [])) > 1 for f in s["start"]["fs"])),
+            "json_documents_with_views_without_sofa": sum(1 for s in docs if s["start"].get("extra")),
+            "adds_through_deprecated_alias": sum(1 for s in scenarios for o in s["ops"] if o.get("alias")),
             "create_view_with_chosen_id": sum(1 for s in scenarios for o in s["ops"] if o["op"] == "view" and o.get("xid")),
             "create_view_with_chosen_sofanum": sum(1 for s in scenarios for o in s["ops"] if o["op"] == "view" and o.get("num")),
             "ops": kinds, "documents_written": written, "duplicate_errors": errs}
@@ -1188,7 +1349,7 @@ MANIFEST = {
                   "the generator, fresh ids are unused, sofaNums are unique, written documents carry pairwise distinct ids, loaded "
                   "ids are kept, and two reachable FS forced onto one id make serialising fail. The model is compared with /repo on "
                   "every run (hand-written XMI/JSON documents, also with sofas whose data is a byte array that is an FS of the CAS as "
-                  "well, histories of <= 12 operations) inside Coq.",
+                  "well and JSON documents that declare views without a sofa, add / add_all also through the deprecated aliases, histories of <= 12 operations) inside Coq.",
     "level_note": "Trusted: Coq kernel + vm_compute; hand-written model coq/Ids.v; the harness computes the traversal order for "
                   "tie-free scenarios, the theorems hold for every order; that all view handles share both generators is carried by "
                   "the correspondence (every operation goes through a random live handle). Remaining premises: ids set from outside "
